@@ -36,6 +36,7 @@ func init() {
 		Rule: "case = a block of 32 fault scripts; a script fixes, for each attempt 1..max(retries,0)+1, one outcome from {ok; workspace / n-th read / n-th write / n-th chmod / commit failing retriably or permanently} x {nobody else commits; somebody commits before the attempt obtains its workspace} plus {somebody commits between the attempt's manifest read and its TryCommit -> genuine conflict}; attempt max+1 (reached only by a wrong loop) is scripted ok. " +
 			"ALL scripts are enumerated (prefix-pruned: nothing is scripted after an ok or permanent outcome because the loop must stop there) for every CommitRetries in {-2,-1,0,1,2,3} through endorse.VirtualFirmware in manifest mode (operations: GetChangeOps, manifest read, endorsement write, chmod, TryCommit; thorough adds the existence read, the manifest write, snapshot mode with its 6 operations, and CommitRetries=4 over the operations GetChangeOps, endorsement write, TryCommit), " +
 			"ALL pairs (thorough: also triples) of scripts over a 6-outcome alphabet for 2 (3) back ends in endorse.Context.VCSs with CommitRetries in {0,1,2}, and ALL 7^4 four-attempt scripts x 6 budgets through endorse.RetrySubmit with a caller-supplied change function (scripts there continue past the budget). " +
+			"Context dimension: for ALL scripts over {ok; GetChangeOps / endorsement write / TryCommit failing retriably or permanently; genuine conflict} with CommitRetries in {-1,0,1,2} (thorough: the 5-operation alphabet for {-2..2} and the 3-operation one for 3), for ALL 2-back-end scripts with CommitRetries in {0,1} and for ALL caller-change scripts with CommitRetries in {-1..3}, the context handed to the entry point becomes done (x {Canceled, DeadlineExceeded} x {back end ignores it; back end refuses every operation that starts afterwards}) before the call or during every reachable operation of every attempt (inside GetChangeOps = before the first / between attempts; inside a TryCommit that succeeds, fails retriably, fails permanently); the context is a scripted context.Context switched by the double, no clock involved; same oracle. " +
 			"The back end is a model with a committed head, snapshot workspaces and optimistic commits; the concurrent writer does a correct read-modify-write of the manifest. The seed only varies image, candidate name, directories, timestamp and whether the depot starts empty or with 2 manifest entries. " +
 			"Oracle over the call log: attempts <= max(retries,0)+1; attempt k+1 only if attempt k did not commit, its last back-end error was retriable and RetriableError answered true; every operation of attempt k is on the workspace obtained in attempt k and never on a destroyed one; a manifest write is preceded by a manifest read from the same workspace; Destroy exactly once per failed attempt that obtained a workspace; nil result <=> every back end accepted a commit; Result exactly once with that commit after it, never without a commit; committed manifest keeps every entry that the writer or an earlier run committed. " +
 			"non-trivial = runs with at least one failed attempt or one concurrent commit; distinct = (entry, mode, retries, attempts made, how it ended, concurrent commits seen, genuine conflicts seen) cells",
@@ -43,6 +44,7 @@ func init() {
 			"negative budgets are read as 'no retries' (one attempt); stopping early is not judged (the property says 'at most') but the run is inconclusive unless, for every budget, some script was observed to use exactly max(retries,0)+1 attempts",
 			"a successful attempt is not required to destroy its workspace; the path passed to Result is not judged",
 			"dry-run is C15's subject and not exercised here; the concurrent writer never touches the candidate's own path or digest (that is C13's subject)",
+			"a cancellation that arrives during an operation does not change that operation's scripted answer (a commit in flight lands); the repository is not required to react to a done context, only to stay bounded and honest",
 			"fault positions are per attempt: n-th call of a kind inside the attempt; an operation the code never reaches cannot fail, the oracle therefore judges the logged answers, not the script",
 		},
 		ShardsQuick: 16, ShardsThor: 16, TimeoutS: 600, TimeoutThor: 3000, Run: run,
@@ -109,12 +111,20 @@ type job struct {
 	mode    string // manifest | manifest-all-ops | snapshot | multi2 | multi3 | caller-change
 	retries int
 	scripts []script // one per back end
+
+	cancel   *cancelPoint // the context handed to the entry point becomes done there (nil: never)
+	deadline bool         // ... as context.DeadlineExceeded instead of context.Canceled
+	honour   bool         // the back ends refuse operations that start after the context is done
 }
 
 func (j job) String() string {
 	s := fmt.Sprintf("%s mode=%s CommitRetries=%d", j.entry, j.mode, j.retries)
 	for i, sc := range j.scripts {
 		s += fmt.Sprintf(" vcs%d=%v", i, sc)
+	}
+	if j.cancel != nil {
+		s += fmt.Sprintf(" context-done(%s)@%v back-ends-%s-it", map[bool]string{false: "Canceled", true: "DeadlineExceeded"}[j.deadline], j.cancel,
+			map[bool]string{false: "ignore", true: "honour"}[j.honour])
 	}
 	return s
 }
@@ -133,7 +143,7 @@ func jobs(thorough bool) []job {
 	for _, r := range budgets {
 		retri, term := alphabet(opsManifestQuick, true)
 		for _, s := range enumerate(maxAttempts(r), retri, term) {
-			js = append(js, job{vf, "manifest", r, []script{s}})
+			js = append(js, job{entry: vf, mode: "manifest", retries: r, scripts: []script{s}})
 		}
 	}
 	// (b) several back ends
@@ -146,7 +156,7 @@ func jobs(thorough bool) []job {
 				if !canSucceed(s1) && i2 > 0 {
 					break // the second back end is never reached
 				}
-				js = append(js, job{vf, "multi2", r, []script{s1, s2}})
+				js = append(js, job{entry: vf, mode: "multi2", retries: r, scripts: []script{s1, s2}})
 			}
 		}
 	}
@@ -158,7 +168,7 @@ func jobs(thorough bool) []job {
 		var rec func(p script)
 		rec = func(p script) {
 			if len(p) == 4 {
-				js = append(js, job{rs, "caller-change", r, []script{append(script(nil), p...)}})
+				js = append(js, job{entry: rs, mode: "caller-change", retries: r, scripts: []script{append(script(nil), p...)}})
 				return
 			}
 			for _, o := range spike {
@@ -167,6 +177,8 @@ func jobs(thorough bool) []job {
 		}
 		rec(nil)
 	}
+	// (e) the context becomes done at operation k of attempt j
+	js = append(js, cancelJobs(thorough)...)
 	if !thorough {
 		return js
 	}
@@ -174,17 +186,17 @@ func jobs(thorough bool) []job {
 	for _, r := range budgets {
 		retri, term := alphabet(opsManifestFull, true)
 		for _, s := range enumerate(maxAttempts(r), retri, term) {
-			js = append(js, job{vf, "manifest-all-ops", r, []script{s}})
+			js = append(js, job{entry: vf, mode: "manifest-all-ops", retries: r, scripts: []script{s}})
 		}
 		retri, term = alphabet(opsSnapshot, true)
 		for _, s := range enumerate(maxAttempts(r), retri, term) {
-			js = append(js, job{vf, "snapshot", r, []script{s}})
+			js = append(js, job{entry: vf, mode: "snapshot", retries: r, scripts: []script{s}})
 		}
 	}
 	{
 		retri, term := alphabet(opsDeep, true)
 		for _, s := range enumerate(maxAttempts(4), retri, term) {
-			js = append(js, job{vf, "manifest", 4, []script{s}})
+			js = append(js, job{entry: vf, mode: "manifest", retries: 4, scripts: []script{s}})
 		}
 	}
 	for _, r := range []int{0, 1} {
@@ -198,9 +210,90 @@ func jobs(thorough bool) []job {
 					if !canSucceed(s2) && i3 > 0 {
 						break
 					}
-					js = append(js, job{vf, "multi3", r, []script{s1, s2, s3}})
+					js = append(js, job{entry: vf, mode: "multi3", retries: r, scripts: []script{s1, s2, s3}})
 				}
 			}
+		}
+	}
+	return js
+}
+
+// cancelPoints lists every reachable point of a script at which the context can become done:
+// during each operation of each scripted attempt up to and including the operation that fails
+// (later operations of that attempt are never called), plus "already done before the call".
+func cancelPoints(vi int, s script, order []opRef) []*cancelPoint {
+	var ps []*cancelPoint
+	for a, o := range s {
+		for _, op := range order {
+			ps = append(ps, &cancelPoint{VCS: vi, Attempt: a + 1, Kind: op.kind, Nth: op.nth})
+			if o.Class != clsNone && o.Kind == op.kind && o.Nth == op.nth {
+				break
+			}
+		}
+	}
+	return ps
+}
+
+// cancelJobs enumerates (script x cancellation point x {Canceled, DeadlineExceeded} x {back end
+// ignores / honours the context}).
+func cancelJobs(thorough bool) []job {
+	var js []job
+	const vf, rs = "endorse.VirtualFirmware", "endorse.RetrySubmit"
+	orderManifest := []opRef{{"get", 1}, {"read", 1}, {"write", 1}, {"chmod", 1}, {"commit", 1}}
+	orderCaller := []opRef{{"get", 1}, {"change", 1}, {"commit", 1}}
+	variants := func(base job, pts []*cancelPoint) {
+		pts = append([]*cancelPoint{{Attempt: 0}}, pts...)
+		for _, p := range pts {
+			for _, dl := range []bool{false, true} {
+				for _, h := range []bool{false, true} {
+					j := base
+					j.cancel, j.deadline, j.honour = p, dl, h
+					js = append(js, j)
+				}
+			}
+		}
+	}
+	// single back end, real change function
+	type tier struct {
+		ops     []opRef
+		budgets []int
+	}
+	tiers := []tier{{opsDeep, []int{-1, 0, 1, 2}}}
+	if thorough {
+		tiers = []tier{{opsManifestQuick, []int{-2, -1, 0, 1, 2}}, {opsDeep, []int{3}}}
+	}
+	for _, t := range tiers {
+		retri, term := alphabet(t.ops, false)
+		for _, r := range t.budgets {
+			for _, s := range enumerate(maxAttempts(r), retri, term) {
+				variants(job{entry: vf, mode: "manifest+ctx", retries: r, scripts: []script{s}}, cancelPoints(0, s, orderManifest))
+			}
+		}
+	}
+	// two back ends: the first one scripted, the second one clean or failing once; the context
+	// becomes done in either of them
+	mr, _ := alphabet(opsMulti, false)
+	mt := []outcome{{}, {Kind: "commit", Nth: 1, Class: clsPermanent}}
+	for _, r := range []int{0, 1} {
+		for _, s1 := range enumerate(maxAttempts(r), mr, mt) {
+			for _, s2 := range []script{{{}}, {{Kind: "commit", Nth: 1, Class: clsRetriable}, {}}} {
+				if len(s2) > maxAttempts(r) {
+					s2 = s2[:maxAttempts(r)]
+				}
+				pts := cancelPoints(0, s1, orderManifest)
+				if canSucceed(s1) {
+					pts = append(pts, cancelPoints(1, s2, orderManifest)...)
+				}
+				variants(job{entry: vf, mode: "multi2+ctx", retries: r, scripts: []script{s1, s2}}, pts)
+			}
+		}
+	}
+	// caller-supplied change function
+	cr := []outcome{{Kind: "get", Nth: 1, Class: clsRetriable}, {Kind: "change", Nth: 1, Class: clsRetriable}, {Kind: "commit", Nth: 1, Class: clsRetriable}}
+	ct := []outcome{{}, {Kind: "get", Nth: 1, Class: clsPermanent}, {Kind: "change", Nth: 1, Class: clsPermanent}, {Kind: "commit", Nth: 1, Class: clsPermanent}}
+	for _, r := range []int{-1, 0, 1, 2, 3} {
+		for _, s := range enumerate(maxAttempts(r), cr, ct) {
+			variants(job{entry: rs, mode: "caller-change+ctx", retries: r, scripts: []script{s}}, cancelPoints(0, s, orderCaller))
 		}
 	}
 	return js
@@ -276,7 +369,9 @@ func run(c *core.Ctx) {
 		c.Floor(n, fl[n])
 	}
 	for _, n := range []string{"success-after-retry-kept-concurrent-entry", "genuine-conflict-was-retried", "permanent-error-stopped-with-budget-left",
-		"second-back-end-committed-after-first", "failed-attempt-workspaces-seen-destroyed", "success-on-first-attempt"} {
+		"second-back-end-committed-after-first", "failed-attempt-workspaces-seen-destroyed", "success-on-first-attempt",
+		"context-done-inside-a-TryCommit-that-succeeded", "context-done-inside-a-TryCommit-that-failed-retriably", "context-done-inside-a-TryCommit-that-failed-permanently",
+		"context-done-between-attempts", "context-done-before-the-first-attempt", "context-done-before-the-call", "honouring-back-end-refused-an-operation-after-context-done"} {
 		c.Floor(n, fl[n])
 	}
 }
@@ -293,8 +388,25 @@ func runJob(c *core.Ctx, w *world, ci, k int, j job, r *rand.Rand, fl map[string
 		snapDir, imgName = []string{"snap", "snap/x"}[r.IntN(2)], "fw.fd"
 	}
 	var vs []*vcs
+	base := context.Background()
+	var ctl *ctxCtl
+	if j.cancel != nil {
+		ctl = newCtl(j.deadline)
+		base = scriptedCtx{Context: base, c: ctl}
+		if j.cancel.Attempt == 0 {
+			ctl.fire()
+			rec.add(event{VCS: -1, Ev: "ctx-done", Path: "before the call"})
+		}
+	}
 	for vi, s := range j.scripts {
-		vs = append(vs, newVCS(vi, rec, s, outDir, snapDir, initial))
+		v := newVCS(vi, rec, s, outDir, snapDir, initial)
+		if j.cancel != nil {
+			v.ctl, v.honour = ctl, j.honour
+			if j.cancel.Attempt > 0 && j.cancel.VCS == vi {
+				v.cancelAt = j.cancel
+			}
+		}
+		vs = append(vs, v)
 	}
 	ec := &endorse.Context{
 		SevSnp: &sev.SnpEndorsementRequest{LaunchVmsas: 1, Product: spb.SevProduct_SEV_PRODUCT_MILAN, ImageID: "00000000-0000-4000-8000-000000000001",
@@ -312,7 +424,7 @@ func runJob(c *core.Ctx, w *world, ci, k int, j job, r *rand.Rand, fl map[string
 	default:
 		ec.VCS = vs[0]
 	}
-	ctx := endorse.NewContext(output.NewContext(keys.NewContext(context.Background(), w.kc), &output.Options{Quiet: true}), ec)
+	ctx := endorse.NewContext(output.NewContext(keys.NewContext(base, w.kc), &output.Options{Quiet: true}), ec)
 	gen := j.String()
 	var rerr error
 	returned := false
@@ -341,7 +453,7 @@ func runJob(c *core.Ctx, w *world, ci, k int, j job, r *rand.Rand, fl map[string
 		}
 		c.Violate(core.Violation{Kind: "oracle", Entry: j.entry, Site: f.Rule, Gen: gen, Case: ci, Detail: f.Detail,
 			Witness: map[string]any{"script_index": k, "entry": j.entry, "mode": j.mode, "commit_retries": j.retries, "scripts": scriptTexts(j.scripts),
-				"returned_error": errText, "call_log": logTexts(rec.log), "candidate": cand, "out_dir": outDir, "initial_entries": initial}})
+				"returned_error": errText, "call_log": logTexts(rec.log), "candidate": cand, "out_dir": outDir, "initial_entries": initial, "context_done_at": fmt.Sprint(j.cancel)}})
 	}
 	// ---- evidence ----
 	c.Count("submissions/"+j.entry+"/"+j.mode, 1)
@@ -434,8 +546,15 @@ func runJob(c *core.Ctx, w *world, ci, k int, j job, r *rand.Rand, fl map[string
 			}
 		}
 	}
-	if failedAttempts > 0 || writers > 0 {
+	ctxCell := ""
+	if j.cancel != nil {
+		ctxCell = ctxEvidence(c, j, rec.log, per, fl)
+	}
+	if failedAttempts > 0 || writers > 0 || ctxCell != "" {
 		c.Cell("%s|%s|retries=%d|attempts=%d|%s|concurrent-commits=%d|conflicts=%d", j.entry, j.mode, j.retries, totalAttempts, end, min(writers, 2), min(conflicts, 2))
+		if ctxCell != "" {
+			c.Cell("%s|%s|retries=%d|%s|%s", j.entry, j.mode, j.retries, end, ctxCell)
+		}
 	}
 	if k%997 == 0 {
 		errText := "<nil>"
@@ -455,6 +574,11 @@ func callerChange(v *vcs) func(context.Context, endorse.ChangeOps) (string, erro
 		if ws != nil {
 			e.WS = ws.id
 			e.Dead = ws.destroyed > 0
+		}
+		if err := v.ctxGate("change", 1, "caller's change function"); err != nil {
+			e.Err, e.Class = err.Error(), clsPermanent
+			v.rec.add(e)
+			return "", err
 		}
 		o := v.cur()
 		if o.Kind == "change" && o.Class != clsNone {
@@ -489,4 +613,66 @@ func logTexts(l []event) []string {
 		t = append(t, e.String())
 	}
 	return t
+}
+
+// ctxEvidence classifies where the context became done (from the log) for cells and floors.
+func ctxEvidence(c *core.Ctx, j job, log []event, per []*vcsObs, fl map[string]bool) string {
+	where := "never-reached"
+	for i, e := range log {
+		if e.Ev != "ctx-done" {
+			continue
+		}
+		switch {
+		case e.VCS < 0:
+			where = "before-the-call"
+			fl["context-done-before-the-call"] = true
+		case j.cancel.Kind == "get" && j.cancel.Attempt == 1 && j.cancel.VCS == 0:
+			where = "before-the-first-attempt"
+			fl["context-done-before-the-first-attempt"] = true
+		case j.cancel.Kind == "get":
+			where = "between-attempts"
+			fl["context-done-between-attempts"] = true
+		case j.cancel.Kind == "commit":
+			where = "inside-TryCommit"
+			// the answer of that TryCommit is the next commit event of the same back end
+			for _, n := range log[i+1:] {
+				if n.VCS == e.VCS && n.Ev == "commit" {
+					switch {
+					case n.Err == "":
+						where += "-that-succeeded"
+						fl["context-done-inside-a-TryCommit-that-succeeded"] = true
+					case n.Class == clsRetriable:
+						where += "-that-failed-retriably"
+						fl["context-done-inside-a-TryCommit-that-failed-retriably"] = true
+					default:
+						where += "-that-failed-permanently"
+						fl["context-done-inside-a-TryCommit-that-failed-permanently"] = true
+					}
+					break
+				}
+			}
+		default:
+			where = "inside-" + j.cancel.Kind
+		}
+	}
+	if j.honour {
+		for _, e := range log {
+			if e.Class == clsPermanent && e.Ev != "ctx-done" && len(e.Err) > 0 && containsStr(e.Err, "refused, context is done") {
+				fl["honouring-back-end-refused-an-operation-after-context-done"] = true
+				where += "/then-refused"
+				break
+			}
+		}
+	}
+	c.Count("context-done/"+where, 1)
+	return fmt.Sprintf("ctx=%s|%s|back-end-%s", where, map[bool]string{false: "Canceled", true: "DeadlineExceeded"}[j.deadline], map[bool]string{false: "ignores", true: "honours"}[j.honour])
+}
+
+func containsStr(s, sub string) bool {
+	for i := 0; i+len(sub) <= len(s); i++ {
+		if s[i:i+len(sub)] == sub {
+			return true
+		}
+	}
+	return false
 }
